@@ -48,6 +48,12 @@ PASS_THROUGH = {
     "_sanitize_range": (0, "histogram range limits are converted into the unit of the samples (numbers NumPy sees are in the data's unit)"),
     "_array_comp_helper": (None, "isclose/allclose: operands are brought to a common unit by contract (C19-R1)"),
 }
+# parameters for which NumPy distinguishes an ndarray from a sequence of arrays: np.histogramdd(sample) reads an
+# (N, D) *array* as N points (one per row) but a *sequence* as D coordinate arrays.  Re-packaging such a parameter
+# by iterating it ([np.asarray(x) for x in sample]) turns the array form into a sequence of its rows, i.e. another
+# computation, unless the handler first tells the two forms apart.
+ARRAY_OR_SEQUENCE = {"numpy.histogramdd": "sample"}
+
 R3_EXCEPT_HANDLERS = {
     "numpy.apply_over_axes": "applies func itself; no NumPy data slot to preserve",
 }
@@ -345,10 +351,39 @@ def _comp_helper_keeps_order(repo, res, r3):
     res.check(not bad, "_array_comp_helper:order", fn.where(), "the comparison helper returns (a's data, b's data) on every path: np.isclose(a, b) uses rtol * |b|, so handing NumPy the operands the other way round changes the numbers", f"({pa}..., {pb}...)", bad[:3], rid=r3)
 
 
+def _array_or_sequence(repo, res, r3, inv, helpers):
+    for h in inv:
+        for t in h.targets:
+            p_ = ARRAY_OR_SEQUENCE.get(t)
+            if p_ is None or p_ not in h.fn.params:
+                continue
+            # follow the parameter into the helper that does the work (same-named parameter)
+            fns = [h.fn]
+            for c in walk_no_nested(h.fn.node):
+                if isinstance(c, ast.Call) and isinstance(c.func, ast.Name) and c.func.id in helpers and any(isinstance(a, ast.Name) and a.id == p_ for a in c.args):
+                    fns += [g for g in helpers[c.func.id] if p_ in g.params]
+            bad = []
+            for f in fns:
+                res.fn(f)
+                iterated = [n for n in ast.walk(f.node) if isinstance(n, ast.comprehension) and isinstance(n.iter, ast.Name) and n.iter.id == p_]
+                iterated += [n for n in ast.walk(f.node) if isinstance(n, ast.For) and isinstance(n.iter, ast.Name) and n.iter.id == p_]
+                if not iterated:
+                    continue
+                # told apart first: a test of the parameter's array-ness that re-binds it or branches
+                told = any(
+                    isinstance(n, ast.Call) and ((norm(n.func) == "isinstance" and n.args and norm(n.args[0]) == p_ and "ndarray" in norm(n.args[1])) or (norm(n.func) in ("np.ndim", "hasattr") and n.args and norm(n.args[0]) == p_))
+                    for n in ast.walk(f.node)
+                ) or any(isinstance(n, ast.Attribute) and n.attr in ("ndim", "shape") and norm(n.value) == p_ for n in ast.walk(f.node))
+                if not told:
+                    bad.append(f"{f.name}: iterates {p_} without telling an (N, D) array from a sequence of D arrays")
+            res.check(not bad, f"{h.key}:{p_}:array-or-sequence", h.fn.where(), f"{t} reads an (N, D) array as N points but a sequence as D coordinate arrays; the handler re-packages `{p_}` by iterating it, which turns an (N, D) unyt_array into the list of its N rows - NumPy then bins a different sample (other counts, other number of axes) than for the bare array", f"the two forms of {p_} told apart before it is iterated", bad, rid=r3)
+
+
 def slot_rule(repo, res, inv):
     r3 = res.rule("C06-R3", "the data reaching slot k of the NumPy call is the handler's own k-th argument, only stripped (not transformed, not permuted)", floor=100)
     helpers = module_helpers(repo)
     _comp_helper_keeps_order(repo, res, r3)
+    _array_or_sequence(repo, res, r3, inv, helpers)
     for h in inv:
         if any(t in R3_EXCEPT_HANDLERS for t in h.targets):
             res.ok(h.key + ":exception", r3)
